@@ -144,7 +144,9 @@ def e2e_monitor(case, il, sl):
 def gen_e2e(tier, seed):
     cases = [Case("e1", ["run 1 60 silent 3600"], {"keep_prefix": 0}), Case("e2", ["run 60 1 chatty 4200"], {"keep_prefix": 0}),
              Case("e3", ["run 0 5 silent 2500"], {"keep_prefix": 0}), Case("e4", ["run 5 0 silent 2500"], {"keep_prefix": 0}),
-             Case("e8", ["run 1 60 dribble 4500"], {"keep_prefix": 0})]
+             Case("e8", ["run 1 60 dribble 4500"], {"keep_prefix": 0}),
+             # the NEGOTIATED interval counts (the lower of the two, 0 = off) - not either side's own wish
+             Case("e10", ["run 1 0 silent 2600"], {"keep_prefix": 0}), Case("e11", ["run 0 1 silent 2600"], {"keep_prefix": 0})]
     if tier != "quick":
         cases += [Case("e5", ["run 2 2 silent 6000"], {"keep_prefix": 0}), Case("e6", ["run 2 3 chatty 12500"], {"keep_prefix": 0}),
                   Case("e7", ["run 1 1 chatty 6500"], {"keep_prefix": 0}), Case("e9", ["run 2 2 dribble 9000"], {"keep_prefix": 0})]
@@ -169,6 +171,10 @@ def loop_monitor(case, il, sl):
     written = b""
     prev_total = b""
     dead = False
+    last_tx = 0
+    last_hbev = None
+    out_known_empty = False
+    sealed_seen = False
     for k, (o, g) in enumerate(tr.al):
         t = o.split()
         if t[0] == "sleep":
@@ -176,6 +182,7 @@ def loop_monitor(case, il, sl):
         elif t[0] == "hb-start":
             started = now if int(t[1]) > 0 else None
             last_rx = now
+            last_tx = now
         elif t[0] == "ev" and t[1] == "stream" and "r" in t[2] and k > 0 and tr.al[k - 1][0].startswith("feed c:"):
             last_rx = now
         for l in g:
@@ -201,6 +208,23 @@ def loop_monitor(case, il, sl):
         if t[0] == "hbev" and started is not None and not dead and g and g[0] == "res ok":
             if now - last_rx >= 2 * h + hbgen.MARGIN and now - started >= 2 * h + hbgen.MARGIN:
                 return ("timer event at %d ms: no inbound byte since %d ms (2h = %d ms) and the connection is still up" % (now, last_rx, 2 * h), "c17-not-enforced")
+            # idle for more than h (nothing written, nothing queued, not closing, no timer event in
+            # between): this timer event must queue a heartbeat frame
+            idle_since = max(last_tx, last_hbev if last_hbev is not None else started, started)
+            if out_known_empty and not sealed_seen and now - idle_since >= h + hbgen.MARGIN:
+                nxt = next((l for (_o2, g2) in tr.al[k + 1:k + 3] for l in g2 if l.startswith("state ")), None)
+                if nxt is not None and "out=08000000000000ce" not in nxt:
+                    return ("timer event at %d ms: nothing written since %d ms, nothing queued (h = %d ms), yet no heartbeat frame was queued: %s" % (now, idle_since, h, nxt[:80]), "c17-tx-gap")
+        if t[0] == "hbev":
+            last_hbev = now
+        if t[0] == "send":
+            out_known_empty = False
+        for l in g:
+            if l.startswith("wrote ") and l != "wrote -":
+                last_tx = now
+            if l.startswith("state "):
+                out_known_empty = l.endswith("out=-")
+                sealed_seen = "sealed=t" in l
     return None
 
 
@@ -208,7 +232,7 @@ def gen_loop(tier, seed):
     import hbgen
     rng = Rng(seed * 41 + 1717)
     n = 48 if tier == "quick" else 600
-    return [hbgen.session(rng, "h%d" % i, h_choices=(400, 400, 300, 0)) for i in range(n)]
+    return hbgen.tx_with_data_queued_cases(rng) + [hbgen.session(rng, "h%d" % i, h_choices=(400, 400, 300, 0), stall_bias=(i % 3 == 2), steps=(4, 9) if i % 3 != 2 else (6, 11)) for i in range(n)]
 
 
 def suites(tier, seed):
@@ -216,7 +240,7 @@ def suites(tier, seed):
     return [
         Suite("timers-in-loop", "machine", lambda: gen_loop(tier, seed), monitor=loop_monitor, nontrivial=lambda c, il: any(o == "hbev" for o in c.ops) and c.meta.get("h", 0) > 0,
               canon=hbgen.canon, shards=16, shrink=False, timeout=300,
-              rule="the REAL I/O loop with its real timers (interval 300/400 ms through the start_heartbeats_ms hook; 0 = off), single-threaded on a case clock with absolute deadlines: sleeps, HEARTBEAT events, inbound bytes (whole heartbeat frames and 1-3 byte fragments of one), frames handed over without bytes, submissions, flushes and stalls; every time-dependent decision >= 170 ms from its threshold; exact diff against the Lean ConnHb model (Conn + Heartbeat) on the nominal clock; cases whose clock was disturbed (> 40 ms late) are set aside"),
+              rule="the REAL I/O loop with its real timers (interval 300/400 ms through the start_heartbeats_ms hook; 0 = off), single-threaded on a case clock with absolute deadlines: sleeps, HEARTBEAT events, inbound bytes (whole heartbeat frames and 1-3 byte fragments of one), frames handed over without bytes, submissions, flushes and stalls (a third of the sessions keep data queued across timer events and flush late); every time-dependent decision >= 170 ms from its threshold; exact diff against the Lean ConnHb model (Conn + Heartbeat) on the nominal clock; cases whose clock was disturbed (> 40 ms late) are set aside"),
         Suite("heartbeat-fire", "heartbeat", lambda: gen(tier, seed), monitor=monitor, nontrivial=nontrivial, compare=False, shards=8, timeout=300,
               rule="real Heartbeat + real mio-extras timer, intervals 200-600 ms: scripts of sleeps to just below / at / above the 5 ms fudge threshold, activity, waiting for the real timer to fire, and fire(); every call bracketed by clock readings, the Lean model evaluated at both ends of each bracket"),
         Suite("heartbeat-e2e", "hbe2e", lambda: gen_e2e(tier, seed), monitor=e2e_monitor, nontrivial=lambda c, il: True, compare=False, shards=8, timeout=300,
